@@ -23,25 +23,25 @@ CLAIMED = {
             "x^0 = 1, x^1 = x, 1^x = 1, 0^x = 0 for x != 0; Ackermann's reduction to pure nonlinear real arithmetic); no new names, no pi in the result. One known finding (0^e).",
             TRUST + "; constant folds by calculate_infix are exact rationals (stub), folds of functions / powers of literals end the path (outside the claim)", "5/C12"),
     "C25": ("One block of <= N instructions (quick 2, thorough 3) over three frames: blocking / non-blocking / padded-template pulses, captures, raw captures, delays, fences, frame "
-            "updates, a gate with one of three calibrations or none, MOVE; qubits solver-chosen, dyadic durations: the real BasicBlock::as_schedule_seconds against a reference "
+            "updates (templates with both, one or no pad), a gate with one of seven calibrations (incl. parallel pieces and an API-built empty body) or none, MOVE; qubits solver-chosen, dyadic durations: the real BasicBlock::as_schedule_seconds against a reference "
             "(expansion, documented durations, start = latest end of an earlier conflicting instruction, a source instruction's span = hull of its expansion, duration = latest end); "
             "an uncomputable schedule must be reported.", TRUST + "; DEFWAVEFORM / SAMPLE-RATE durations outside the claim", "5/C25"),
     "C13": ("All expression trees of depth <= D (quick 2, thorough 3) with enumerated node kinds and solver-chosen operators, functions, names, 64-bit indices and double literals, and "
             "every partial assignment (variables bound or not, regions absent / empty / non-empty, arbitrary doubles): the real evaluate, substitute_variables and memory_references: "
             "evaluate(substitute(e, s)) and evaluate(e, s) give the same verdict and bit-identical values; evaluation succeeds iff everything is supplied; the reported memory "
             "references are the addresses of the tree.", TRUST + "; calculate_infix / calculate_function are uninterpreted functions (stub)", "5/C13"),
-    "C16": ("All calibration sets of <= K definitions (quick 2, thorough 3) from 10 gate- and 5 measure-calibration shapes (fixed/variable qubits, literal/variable parameters, "
+    "C16": ("All calibration sets of <= K definitions (quick 2, thorough 3) from 11 gate- and 6 measure-calibration shapes (plus a third definition restricted to two-qubit calibrations in the quick tier; fixed/variable qubits, distinct target names, literal/variable parameters, "
             "DAGGER, named measurements) with solver-chosen names, qubits and bodies, optionally followed by a redefinition of the first signature, queried by 7 gate / 4 "
             "measurement shapes: the real add_instruction / get_match_for_gate / get_match_for_measurement against a reference precedence function and replace-in-place "
             "list written from the statement.", TRUST, "5/C16"),
-    "C17": ("All programs of <= 2 calibrations (4 gate headers incl. mixed fixed/variable qubits x 12 bodies incl. recursion, growing parameters, body MEASURE/RESET/DECLARE; 2 measure headers x 4 bodies) and "
+    "C17": ("All programs of <= 2 calibrations (4 gate headers incl. mixed fixed/variable qubits x 14 bodies incl. recursion, growing parameters, body MEASURE/RESET/DECLARE/PRAGMA EXTERN; 3 measure headers incl. measurement for effect x 5 bodies incl. a gate) and "
             "a body of <= N gate / measure instructions (quick 1, thorough 2): both expansion entry points against a reference expander (substitution of qubit and parameter "
             "variables everywhere, measurement target replaces the target name only, fixpoint, declarations hoisted).", TRUST, "5/C17"),
     "C18": ("Same inputs as C17: expansion must return (call depth bounded by the interpreter; a divergence is replayed natively in a child process) and report "
             "RecursiveCalibration exactly when the reference re-enters an active calibration.", TRUST, "5/C18"),
-    "C19": ("Programs of <= 3 calibrations (three levels of nesting; bodies of one to three instructions, one of them a call; shape order non-decreasing in the quick tier): "
+    "C19": ("Programs of <= 3 calibrations (three levels of nesting; bodies of one to three instructions incl. a call, a hoisted DECLARE before / after the call, a hoisted PRAGMA EXTERN; shape order non-decreasing in the quick tier): "
             "the returned source map is checked structurally (source order, unmodified entries identical, ranges partition the output, nested records "
-            "partition their parent range) and list_sources / list_targets are checked to be inverse at every output index and one past the end. One known finding (hoisted declarations).", TRUST, "5/C19"),
+            "partition their parent range, every nested call's range has the length of what the call contributed) and list_sources / list_targets are checked to be inverse at every output index and one past the end. Two listed roles of one known defect (hoisted declarations).", TRUST, "5/C19"),
     "C29": ("All blocks of <= N instructions (quick 3, thorough 4) over one-, two- and three-qubit gates with pairwise distinct solver-chosen qubits from {0,1,2,3}, MEASURE, MOVE, NOP, "
             "and every threshold (64-bit solver variable): the real QubitGraph::new / path_fold / gate_depth against a dynamic programme over the per-qubit successor relation.",
             TRUST + "; petgraph Graph modelled as node / edge lists", "5/C29"),
@@ -57,10 +57,10 @@ CLAIMED = {
     "C33": ("Bodies of <= 2 instructions with <= 2 definitions, iteration count a symbolic 32-bit value for the shape obligations (prologue, body once, decrement, JUMP-WHEN, "
             "definitions kept, source untouched) and n in {0,1,2,3,5} executed by a small interpreter of the five control instructions: the body runs exactly n times.",
             TRUST, "5/C33"),
-    "C34": ("Bodies of <= N instructions (quick 2, thorough 3) over gates, MEASURE, FENCE, LABEL, JUMP, JUMP-WHEN with every qubit a solver-chosen u64 or one of 3 placeholders "
+    "C34": ("Bodies of <= N instructions (quick 2, thorough 3) over gates, MEASURE, RAW-CAPTURE, FENCE, LABEL, JUMP, JUMP-WHEN with every qubit a solver-chosen u64 or one of 3 placeholders "
             "and every target a fixed label or placeholder: the real resolve_placeholders and resolve_placeholders_with_custom_resolvers: equal placeholders get equal values, "
             "distinct ones distinct values unused by fixed qubits/labels, custom resolver values win, nothing else changes.", TRUST, "5/C34"),
-    "C35": ("Programs with two frame / waveform / extern definitions (keys solver-chosen, may coincide), a declaration, a DEFGATE, a DEFCIRCUIT, at most one calibration (4 shapes) "
+    "C35": ("Programs with two frame / waveform / extern definitions (keys solver-chosen, may coincide), a declaration, a DEFGATE, a DEFCIRCUIT, at most one calibration (6 shapes incl. a fixed-qubit one and one whose body has a DECLARE), waveform and extern names overlapping, "
             "and a body of <= N instructions (quick 2, thorough 3): the real simplify::<DefaultHandler>: body equals the real expansion's, no calibrations, exactly the used "
             "frames / invoked waveforms / called externs kept, other definitions unchanged. Schedule clause: on the sub-space of bodies with known durations (gate, template pulse, "
             "FENCE, DELAY, SET-PHASE, RESET q; calibration none or FENCE) the real BasicBlock::as_schedule_seconds of the simplified and of the expanded program are equal.",
@@ -72,13 +72,13 @@ CLAIMED = {
     "C21": ("Same inputs as C20: both entry points return the same program / the same error kind; the source map has one entry per source instruction in order, unmodified entries "
             "point at identical instructions, rewritten ranges are contiguous and equal to what the reference produced, nested maps relative to the parent range, recursively.",
             TRUST, "5/C21"),
-    "C22": ("All single blocks of <= N instructions (quick 2, thorough 3) plus an optional terminator over 16 classical / RF templates with solver-chosen operands, "
+    "C22": ("All single blocks of <= N instructions (quick 2, thorough 3) plus an optional terminator over 18 classical / RF templates (incl. a capture that reads its own target region and MOVEs on an undeclared region) with solver-chosen operands, "
             "scheduled by the real ScheduledProgram::from_program: every edge points forward in block order; with all RF instructions matched every node is reachable "
             "from the start and reaches the end.", TRUST, "5/C22"),
     "C23": ("(a) one step of DependencyQueue::<MemoryAccessType>::record_access_and_get_dependencies from an arbitrary queue state (any pending write/capture, <= 2 pending "
             "reads, all node indices symbolic) against the sequential-consistency specification: unbounded in block length; (b) whole blocks as in C22 over 8 memory-touching "
             "templates: conflicting pairs are ordered, every memory edge joins a conflicting pair.", TRUST, "5/C23"),
-    "C24": ("Whole blocks as in C22 over 12 RF templates and three frames: conflicting uses/blocks are ordered through StableOrdering edges, through Scheduled edges when both "
+    "C24": ("Whole blocks as in C22 over 14 RF templates and three frames (the quick tier adds a third instruction restricted to pulses and a two-qubit frame update): conflicting uses/blocks are ordered through StableOrdering edges, through Scheduled edges when both "
             "are timed; every frame edge joins a conflicting pair or a block boundary.", TRUST, "5/C24"),
     "C26": ("All frame sets of <= K frames (quick 2, thorough 3) on one or two qubits with solver-chosen qubits and names, and one instruction from 22 templates "
             "(pulses, captures, frame updates, SWAP-PHASES, FENCE, DELAY, RESET q) with solver-chosen operands: the real DefaultHandler::matching_frames against "
@@ -101,7 +101,7 @@ CLAIMED = {
             "the real `From<&Program> for ControlFlowGraph` is executed symbolically and the block partition, labels, terminators, offsets and the "
             "dynamic flag are compared with a reference partition; z3 closes every path.",
             TRUST, "5/C28"),
-    "C09": ("All instruction sequences of length <= N (quick 3, thorough 4) over 11 instruction templates (every definition kind, PRAGMA EXTERN, body "
+    "C09": ("All instruction sequences of length <= N (quick 3, thorough 4) over 11 instruction templates in two alphabets (PRAGMA with one or with two arguments after its name; every definition kind, PRAGMA EXTERN, body "
             "instructions) with solver-chosen keys, values and qubits: the real from_instructions / to_instructions / into_instructions / PartialEq are "
             "executed symbolically; the two listings, the rebuilt program and a reference container model must agree on every path.",
             TRUST, "5/C09"),
@@ -112,9 +112,10 @@ CLAIMED = {
             "solver-chosen permutation (all n! for n <= 3): listings of independent builds must be equal and in first-insertion order.",
             TRUST + "; HashMap order is modelled as arbitrary per instance", "5/C08"),
     "C10": ("All start sequences (<= N) followed by all histories of <= H operations (quick 2/2, thorough 3/3) from add_instruction, +=, clone, "
-            "clone_without_body_instructions, rebuild, wrap_in_loop(0/1/2): after every step the cached used-qubit set is compared with the union of "
-            "get_qubits over the listing, and equal listings must compare equal. Three known findings (cache reset by clone_without_body_instructions).",
-            TRUST + "; expansion / simplify / placeholder operations are outside the history alphabet", "5/C10"),
+            "clone_without_body_instructions, rebuild, wrap_in_loop(0/1/2), expand_defgate_sequences (thorough also: expand_calibrations, simplify, resolve_placeholders on "
+            "placeholder-free programs): after every step the cached used-qubit set is compared with the union of get_qubits over the listing, and equal listings must "
+            "compare equal. Five listed roles of known findings (cache reset by clone_without_body_instructions and the operations built on it; += keeps the union).",
+            TRUST + "; programs with placeholders inside definitions are outside the history alphabet", "5/C10"),
 }
 
 TEXT_TIER = ("needs printer + lexer + parser in one path: the printed text has symbolic segments and the lexer (nom string combinators over LocatedSpan<&str>, lexical number "
